@@ -361,7 +361,7 @@ fn c09_cell(run: &mut Run, l: usize, k: KeyCode, bits: u16, letter: Option<char>
 }
 
 pub fn c09(run: &mut Run) {
-    run.rule = "Exhaustive: 10 layouts x 124 keys x 512 modifier records x 2 modes. The letter of a key is what the layout itself types at the bare base level (a..z). R0: mapping enabled, either Ctrl held, no Alt/AltGr, letter key => U+0001..U+001A of that letter for every Shift/CapsLock/NumLock/hidden-flag value. R1: Ctrl not held => output identical in both modes. R2: non-letter key => output identical in both modes for every modifier record. R3: mapping disabled => output identical with Ctrl held and released (AltGr fact preserved). Event-history layer: all sequences of <= 4 events over {LCtrl, RCtrl, LShift down/up, CapsLock, F1} followed by a press of a letter key through Keyboard::process_keyevent; Ctrl counts as held iff one of the two Ctrl keys is held per the history. Non-trivial = case with Ctrl held; distinct = (layout, key, abstract modifier class).".into();
+    run.rule = "Exhaustive: 10 layouts x 124 keys x 512 modifier records x 2 modes. The letter of a key is what the layout itself types at the bare base level (a..z). R0: mapping enabled, either Ctrl held, no Alt/AltGr, letter key => U+0001..U+001A of that letter for every Shift/CapsLock/NumLock/hidden-flag value. R1: Ctrl not held => output identical in both modes. R2: non-letter key => output identical in both modes for every modifier record. R3: mapping disabled => output identical with Ctrl held and released (AltGr fact preserved). Event-history layer: all sequences of <= 3 events over {LCtrl, RCtrl, LShift, RAltGr, LAlt down/up, CapsLock, F1, an earlier press/release of the probed key} and of 4 events over the first eight, followed by a press of a letter key through Keyboard::process_keyevent; Ctrl counts as held iff one of the two Ctrl keys is held per the history. Non-trivial = case with Ctrl held; distinct = (layout, key, abstract modifier class).".into();
     run.assumptions = vec!["'the letter the layout types' is read off the layout's own bare output, which keeps C09 independent of C03's tables".into()];
     let mut letters = BTreeMap::new();
     for l in 0..N_LAYOUTS {
@@ -443,7 +443,7 @@ fn c10_cell(run: &mut Run, l: usize, k: KeyCode, bits: u16, h: HandleControl, ca
 }
 
 pub fn c10(run: &mut Run) {
-    run.rule = "Exhaustive: 10 layouts x 124 keys x the 256 modifier records with CapsLock off, each paired with its CapsLock-on twin, x 2 modes. A key is a cased-letter key iff its bare output is a lowercase character whose single-character uppercase is its bare Shift output. Cased-letter key: out(m + CapsLock) = out(m with the Shift fact inverted). Any other key: out(m + CapsLock) = out(m). Event-history layer: all sequences of <= 4 events over {CapsLock, LShift, RShift} x {down, up} followed by a key press through Keyboard::process_keyevent (CapsLock = parity of its presses, Shift = any shift key held, per the history). Non-trivial = twin pair on a cased-letter key or on a key whose Shift output differs from its base output; distinct = (layout, key, modifier record, mode).".into();
+    run.rule = "Exhaustive: 10 layouts x 124 keys x the 256 modifier records with CapsLock off, each paired with its CapsLock-on twin, x 2 modes. A key is a cased-letter key iff its bare output is a lowercase character whose single-character uppercase is its bare Shift output. Cased-letter key: out(m + CapsLock) = out(m with the Shift fact inverted). Any other key: out(m + CapsLock) = out(m). Event-history layer: all sequences of <= 4 events over {CapsLock, LShift, RShift, the probed key itself} x {down, up} followed by a key press through Keyboard::process_keyevent (CapsLock = parity of its presses, Shift = any shift key held, per the history). Non-trivial = twin pair on a cased-letter key or on a key whose Shift output differs from its base output; distinct = (layout, key, modifier record, mode).".into();
     run.assumptions = vec!["cased-letter classification uses Unicode simple case mapping (char::to_uppercase with a single-character result)".into()];
     let mut ncased = BTreeMap::new();
     for l in 0..N_LAYOUTS {
@@ -529,7 +529,7 @@ fn c11_predicates(run: &mut Run, bits: u16) {
 }
 
 pub fn c11(run: &mut Run) {
-    run.rule = "Exhaustive: 10 layouts x 124 keys x 512 modifier records x 2 modes; each record is compared with the canonical representative of its abstract class (Shift -> left Shift only, Ctrl -> left Ctrl only, AltGr = right Alt or left Alt+Ctrl -> right Alt only, CapsLock, NumLock; a lone left Alt and the hidden Pause-Ctrl dropped; NumLock normalised to on for the 107 non-numpad keys): outputs must be equal. The five Modifiers predicates are compared on all 512 records with groupings computed by the harness. Non-trivial = record that differs from its class representative; distinct = (layout, key, record, mode).".into();
+    run.rule = "Exhaustive: 10 layouts x 124 keys x 512 modifier records x 2 modes; each record is compared with the canonical representative of its abstract class (Shift -> left Shift only, Ctrl -> left Ctrl only, AltGr = right Alt or left Alt+Ctrl -> right Alt only, CapsLock, NumLock; a lone left Alt and the hidden Pause-Ctrl dropped; NumLock normalised to on for the 107 non-numpad keys): outputs must be equal. The five Modifiers predicates are compared on all 512 records with groupings computed by the harness. Event-history layer: every record and its class representative reached by witness histories of key events, the key pressed through Keyboard::process_keyevent, outputs equal. Non-trivial = record that differs from its class representative; distinct = (layout, key, record, mode).".into();
     run.assumptions = vec!["the abstract facts are computed by the harness from the nine public fields, never by the crate's own predicates".into()];
     for l in 0..N_LAYOUTS {
         for &k in ALL_KEYS {
@@ -548,6 +548,7 @@ pub fn c11(run: &mut Run) {
         c11_predicates(run, bits);
     }
     run.part("cells", json!({"layout_cells": N_LAYOUTS * ALL_KEYS.len() * 512 * 2, "classes": 32, "predicate_evaluations": 512 * 5}));
+    c11_histories(run);
     run.exhaustive = true;
 }
 
@@ -743,7 +744,7 @@ fn c16_cell(run: &mut Run, l: usize, f: Form, k: KeyCode, bits: u16, h: HandleCo
 }
 
 pub fn c16(run: &mut Run) {
-    run.rule = "Exhaustive: 30 layout objects (10 layouts x bare / AnyLayout / &AnyLayout) x 124 keys x 512 modifier records x 2 modes. The 52 keys that carry no character on any keyboard (F1-F12, PrintScreen, SysRq, ScrollLock, PauseBreak, Insert/Home/PageUp/End/PageDown, arrows, NumpadLock, CapsLock, Shift/Ctrl/Alt/Win/Apps keys, 9 media keys, PowerOnTestOk, TooManyKeys, RControl2, RAlt2, Oem9-Oem11) must decode to exactly RawKey(self). Any RawKey(x) output for any key must have x = the pressed key, or the key is a numpad key, NumLock is off and x is its navigation alias. Non-trivial = case producing (or required to produce) a RawKey; distinct = (object, key, record, mode).".into();
+    run.rule = "Exhaustive: 30 layout objects (10 layouts x bare / AnyLayout / &AnyLayout) x 124 keys x 512 modifier records x 2 modes. The 52 keys that carry no character on any keyboard (F1-F12, PrintScreen, SysRq, ScrollLock, PauseBreak, Insert/Home/PageUp/End/PageDown, arrows, NumpadLock, CapsLock, Shift/Ctrl/Alt/Win/Apps keys, 9 media keys, PowerOnTestOk, TooManyKeys, RControl2, RAlt2, Oem9-Oem11) must decode to exactly RawKey(self). Any RawKey(x) output for any key must have x = the pressed key, or the key is a numpad key, NumLock is off and x is its navigation alias. Event-history layer: after the witness history of every modifier record (optionally followed by a complete Pause or PrintScreen sequence) each of the 52 keys pressed through Keyboard::process_keyevent yields its own raw code (NumpadLock while the hidden Pause-Ctrl is held: PauseBreak). Non-trivial = case producing (or required to produce) a RawKey; distinct = (object, key, record, mode).".into();
     run.assumptions = vec!["Delete is accepted as the NumLock-off alias of the numpad decimal key in this check (C15 decides what that key must actually type)".into()];
     for l in 0..N_LAYOUTS {
         for f in FORMS {
@@ -760,6 +761,7 @@ pub fn c16(run: &mut Run) {
         run.sample(|| json!({"layout":LAYOUT_NAMES[l],"form":"&AnyLayout","key":key_name(k),"modifiers":"lshift+ralt (NumLock off)","observed":out_str(&o)}));
     }
     run.part("cells", json!({"cells": 30 * ALL_KEYS.len() * 1024, "always_raw_keys": ALL_KEYS.iter().filter(|k| always_raw(**k)).count()}));
+    c16_histories(run);
     run.exhaustive = true;
 }
 
@@ -934,19 +936,33 @@ fn c09_hist_case(run: &mut Run, l: usize, h: &[(KeyCode, KeyState)], k: KeyCode,
 fn c09_histories(run: &mut Run) {
     use KeyCode::*;
     use KeyState::*;
-    let alpha = [(LControl, Down), (LControl, Up), (RControl, Down), (RControl, Up), (LShift, Down), (LShift, Up), (CapsLock, Down), (F1, Down)];
-    let seqs = all_sequences(&alpha, 4);
+    // PROBE stands for the letter key that is pressed at the end (a previous press / release
+    // of the same key: typematic repeat, decode caches)
+    const PROBE: KeyCode = KeyCode::PauseBreak;
+    let alpha = [(LControl, Down), (LControl, Up), (RControl, Down), (RControl, Up), (LShift, Down), (LShift, Up), (CapsLock, Down), (F1, Down),
+                 (RAltGr, Down), (RAltGr, Up), (LAlt, Down), (LAlt, Up), (PROBE, Down), (PROBE, Up)];
+    let seqs0 = all_sequences(&alpha, 3);
+    // length 4: the 8 Ctrl/Shift/Caps/F1 symbols only (as before) to keep the count bounded
+    let mut seqs = seqs0;
+    seqs.extend(all_sequences(&alpha[..8], 4).into_iter().filter(|s| s.len() == 4));
     let mut n = 0u64;
     for l in 0..N_LAYOUTS {
         let letters: Vec<(KeyCode, char)> = ALL_KEYS.iter().filter_map(|k| letter_of(l, *k).map(|c| (*k, c))).collect();
-        for (si, h) in seqs.iter().enumerate() {
+        for (si, h0) in seqs.iter().enumerate() {
+            let uses_probe = h0.iter().any(|(k, _)| *k == PROBE);
+            let h = h0;
             let mut model = mm::INITIAL_MODS;
             for (hk, hs) in h { model = mm::step(model, *hk, *hs); }
             for mode in MODES {
                 // all letters for short histories, a rotating sample of 4 for the longest ones
                 let pick: Vec<&(KeyCode, char)> = if h.len() <= 3 { letters.iter().collect() } else { (0..4).map(|j| &letters[(si * 7 + j * 5) % letters.len()]).collect() };
                 for (k, c) in pick {
-                    c09_hist_case(run, l, h, *k, mode, *c);
+                    if uses_probe {
+                        let hh: Hist = h.iter().map(|(hk, hs)| (if *hk == PROBE { *k } else { *hk }, *hs)).collect();
+                        c09_hist_case(run, l, &hh, *k, mode, *c);
+                    } else {
+                        c09_hist_case(run, l, h, *k, mode, *c);
+                    }
                     n += 1;
                     if facts(model).ctrl { run.nontrivial_enum(1); }
                 }
@@ -985,16 +1001,24 @@ fn c10_hist_case(run: &mut Run, l: usize, h: &[(KeyCode, KeyState)], k: KeyCode,
 fn c10_histories(run: &mut Run) {
     use KeyCode::*;
     use KeyState::*;
-    let alpha = [(CapsLock, Down), (CapsLock, Up), (LShift, Down), (LShift, Up), (RShift, Down), (RShift, Up)];
+    const PROBE: KeyCode = KeyCode::PauseBreak;
+    let alpha = [(CapsLock, Down), (CapsLock, Up), (LShift, Down), (LShift, Up), (RShift, Down), (RShift, Up), (PROBE, Down), (PROBE, Up)];
     let seqs = all_sequences(&alpha, 4);
     let mut n = 0u64;
     for l in 0..N_LAYOUTS {
-        let keys: Vec<(KeyCode, Option<(char, char)>)> = ALL_KEYS.iter().filter(|k| !mm::is_modifier_key(**k)).map(|k| (*k, cased_letter(l, *k))).collect();
-        for (si, h) in seqs.iter().enumerate() {
+        let keys: Vec<(KeyCode, Option<(char, char)>)> = ALL_KEYS.iter().filter(|k| !mm::is_modifier_key(**k) && **k != PROBE).map(|k| (*k, cased_letter(l, *k))).collect();
+        for (si, h0) in seqs.iter().enumerate() {
+            let uses_probe = h0.iter().any(|(k, _)| *k == PROBE);
+            let h = h0;
             // every key for histories up to 2 events, a rotating sample of 12 keys beyond
             let pick: Vec<&(KeyCode, Option<(char, char)>)> = if h.len() <= 2 { keys.iter().collect() } else { (0..12).map(|j| &keys[(si * 11 + j * 9) % keys.len()]).collect() };
             for (k, cased) in pick {
-                c10_hist_case(run, l, h, *k, HandleControl::Ignore, *cased);
+                if uses_probe {
+                    let hh: Hist = h.iter().map(|(hk, hs)| (if *hk == PROBE { *k } else { *hk }, *hs)).collect();
+                    c10_hist_case(run, l, &hh, *k, HandleControl::Ignore, *cased);
+                } else {
+                    c10_hist_case(run, l, h, *k, HandleControl::Ignore, *cased);
+                }
                 n += 1;
                 if cased.is_some() { run.nontrivial_enum(1); }
             }
@@ -1007,6 +1031,83 @@ fn c10_histories(run: &mut Run) {
         }
     }
     run.part("event_histories", json!({"sequences": seqs.len(), "cases": n}));
+}
+
+fn c11_hist_case(run: &mut Run, l: usize, bits: u16, k: KeyCode, mode: HandleControl) {
+    let canon = canonical(bits, is_numpad(k));
+    if canon == bits {
+        return;
+    }
+    run.eval(1);
+    let (ha, hb): (Hist, Hist) = (mm::witness_history(bits), mm::witness_history(canon));
+    let (a, _) = press_after(l, &ha, k, mode);
+    let (b, _) = press_after(l, &hb, k, mode);
+    if a != b {
+        run.violation(Violation {
+            sig: format!("C11:history:{}:{:?}:{}:{}:rep={}:got={}", LAYOUT_NAMES[l], k, facts_str(bits), mode_name(mode), opt_out_str(&b), opt_out_str(&a)),
+            what: format!("{}: through Keyboard::process_keyevent, key {:?} (mode {}) yields {} when the held modifiers are {} but {} when they are {}, although both are the same abstract state ({})", LAYOUT_NAMES[l], k, mode_name(mode), opt_out_str(&a), mods_str(bits), opt_out_str(&b), mods_str(canon), facts_str(bits)),
+            case: json!({"kind":"layout_history","check":"C11","layout":LAYOUT_NAMES[l],"mods":bits,"key":key_name(k),"mode":mode_name(mode),"history":hist_json(&ha),"text":hist_text(&ha)}),
+        });
+    }
+}
+
+fn c11_histories(run: &mut Run) {
+    let mut n = 0u64;
+    for l in 0..N_LAYOUTS {
+        for &k in ALL_KEYS {
+            if mm::is_modifier_key(k) { continue; }
+            for mode in MODES {
+                for bits in 0..N_MODS {
+                    c11_hist_case(run, l, bits, k, mode);
+                    n += 1;
+                }
+            }
+        }
+    }
+    run.nontrivial_enum(n);
+    run.part("event_histories", json!({"cases": n, "note": "each modifier record and its class representative reached by witness histories of key events, key pressed through Keyboard::process_keyevent"}));
+}
+
+fn c16_hist_case(run: &mut Run, l: usize, h: &[(KeyCode, KeyState)], k: KeyCode, mode: HandleControl) {
+    run.eval(1);
+    let (got, model) = press_after(l, h, k, mode);
+    let want = if k == KeyCode::NumpadLock && model & M_RCTRL2 != 0 { KeyCode::PauseBreak } else { k };
+    if got != Ok(Some(DecodedKey::RawKey(want))) {
+        run.violation(Violation {
+            sig: format!("C16:history:{}:[{}]:{:?}:{}:got={}", LAYOUT_NAMES[l], hist_text(h).replace(' ', "."), k, mode_name(mode), opt_out_str(&got)),
+            what: format!("{}: after the key events [{}] (held per the history: {}), pressing the character-less key {:?} yields {} instead of Raw({:?})", LAYOUT_NAMES[l], hist_text(h), mods_str(model), k, opt_out_str(&got), want),
+            case: hist_case("C16", l, h, k, mode),
+        });
+    }
+}
+
+fn c16_histories(run: &mut Run) {
+    use KeyCode::*;
+    use KeyState::*;
+    let pause: Hist = vec![(RControl2, Down), (NumpadLock, Down), (RControl2, Up), (NumpadLock, Up)];
+    let printscreen: Hist = vec![(RAlt2, Down), (PrintScreen, Down), (PrintScreen, Up), (RAlt2, Up)];
+    let mut n = 0u64;
+    for l in 0..N_LAYOUTS {
+        for bits in 0..N_MODS {
+            for (pi, prefix) in [vec![], pause.clone(), printscreen.clone()].iter().enumerate() {
+                // the idioms leave the modifier record unchanged; witness first, idiom after
+                if pi > 0 && bits % 8 != 0 { continue; }
+                let mut h: Hist = mm::witness_history(bits);
+                if bits & M_RCTRL2 == 0 {
+                    h.extend(prefix.iter().copied());
+                } else if pi > 0 {
+                    continue;
+                }
+                for &k in ALL_KEYS {
+                    if !always_raw(k) { continue; }
+                    c16_hist_case(run, l, &h, k, if bits & 1 == 0 { HandleControl::Ignore } else { HandleControl::MapLettersToUnicode });
+                    n += 1;
+                }
+            }
+        }
+    }
+    run.nontrivial_enum(n);
+    run.part("event_histories", json!({"cases": n, "note": "witness history of every modifier record (optionally followed by a complete Pause or PrintScreen sequence), then each of the 52 character-less keys pressed through Keyboard::process_keyevent"}));
 }
 
 fn c15_hist_case(run: &mut Run, l: usize, h: &[(KeyCode, KeyState)], k: KeyCode, mode: HandleControl) {
@@ -1072,6 +1173,8 @@ pub fn replay(run: &mut Run, case: &Value) -> bool {
                 "C09" => { if let Some(c) = letter_of(l, k) { c09_hist_case(run, l, &h, k, mode, c) } }
                 "C10" => c10_hist_case(run, l, &h, k, mode, cased_letter(l, k)),
                 "C15" => c15_hist_case(run, l, &h, k, mode),
+                "C16" => c16_hist_case(run, l, &h, k, mode),
+                "C11" => c11_hist_case(run, l, case["mods"].as_u64().unwrap_or(0) as u16, k, mode),
                 _ => return false,
             }
             true
